@@ -80,7 +80,29 @@ Crawl ==
 Other == (Is("Point") \/ Is("Release") \/ Is("End")) /\ Step(s)
 Stuck == Is("Stuck") /\ Step([s EXCEPT !.viol = @ \cup {<<"C16", "d_wedged_or_crashed">>}])
 
-Next == Closest \/ SwapResult \/ Op \/ Crawl \/ Other \/ Stuck
+\* A provider search of the accelerated client (every table peer reports providers; answers arrive in any order,
+\* also several before the caller has taken anything): no provider twice, at most count of them, only reported ones,
+\* and the channel is closed.
+NoRepeat(q) == \A i, j \in DOMAIN q : i # j => q[i] # q[j]
+FP ==
+  /\ Is("FP")
+  /\ Step([s EXCEPT !.viol = @
+       \cup Flag(~Ev.hang, "d_operation_hung")
+       \cup Flag(NoRepeat(Ev.emitted), "e_provider_yielded_twice_by_the_accelerated_client")
+       \cup Flag(s.c.count > 0 => Len(Ev.emitted) <= s.c.count, "e_more_than_count_providers_from_the_accelerated_client")
+       \cup Flag(Range(Ev.emitted) \subseteq Range(Ev.offered), "e_unreported_provider_from_the_accelerated_client")])
+
+\* A value search of the accelerated client: the stream improves strictly under the validator (ranks strictly
+\* increase: a different record of equal rank is no improvement), holds only valid values that some peer returned, ends.
+SV ==
+  /\ Is("SV")
+  /\ Step([s EXCEPT !.viol = @
+       \cup Flag(~Ev.hang, "d_operation_hung")
+       \cup Flag(\A i \in 1..(Len(Ev.ranks) - 1) : Ev.ranks[i] < Ev.ranks[i + 1], "e_value_stream_of_the_accelerated_client_not_strictly_improving")
+       \cup Flag(Ev.valid, "e_invalid_value_streamed_by_the_accelerated_client")
+       \cup Flag(Ev.offered, "e_value_from_nowhere_streamed_by_the_accelerated_client")])
+
+Next == Closest \/ SwapResult \/ Op \/ Crawl \/ FP \/ SV \/ Other \/ Stuck
 TraceSpec == Init /\ [][Next]_vars
 TraceAccepted == TLCGet("distinct") = NLines
 InvC16 == s.viol = {}
